@@ -18,13 +18,13 @@ EnqCall == /\ HasNext /\ Ev.ev = "enq_call" /\ Step
                   removalInFlight == \E x \in deqs : x[2] = Ev.key          \* a Dequeue of this key is in flight
                   dead == closeRet                       \* Enqueue after Close returned is ignored
               IN items' = (Ev.id :> [NewItem(Ev.key, Ev.at, concurrentSameKey \/ removalInFlight \/ closeCalled) EXCEPT !.ex = IF dead THEN "done" ELSE "no"])
-                          @@ StartRemoval(items, Ev.key, <<"e", Ev.id>>)
+                          @@ (IF closeCalled THEN MaybeRemoval(items, Ev.key) ELSE StartRemoval(items, Ev.key, <<"e", Ev.id>>))
            /\ UNCHANGED <<now, closeCalled, closeRet, deqs, win>>
 EnqRet == /\ HasNext /\ Ev.ev = "enq_ret" /\ Step
           /\ items' = [FinishRemoval(items, <<"e", Ev.id>>, now) EXCEPT ![Ev.id].enq = "ret"]
           /\ UNCHANGED <<now, closeCalled, closeRet, deqs, win>>
 DeqCall == /\ HasNext /\ Ev.ev = "deq_call" /\ Step
-           /\ items' = StartRemoval(items, Ev.key, <<"d", Ev.d>>)
+           /\ items' = IF closeCalled THEN MaybeRemoval(items, Ev.key) ELSE StartRemoval(items, Ev.key, <<"d", Ev.d>>)
            /\ deqs' = deqs \cup {<<Ev.d, Ev.key>>}
            /\ UNCHANGED <<now, closeCalled, closeRet, win>>
 DeqRet == /\ HasNext /\ Ev.ev = "deq_ret" /\ Step
